@@ -366,3 +366,11 @@ func structToMapFieldNumberInterface(data interface{}, desc *proto.MessageDescri
 
 
 
+
+// elemWireOf returns the wire type of the elements of a LIST descriptor (what a packed run consists of).
+func elemWireOf(d *proto.TypeDescriptor) proto.WireType {
+	if d != nil && d.IsList() && d.Elem() != nil {
+		return d.Elem().WireType()
+	}
+	return proto.BytesType
+}
